@@ -272,7 +272,7 @@ class Gen:
                             a = {"op": "update", "o": rnd.choice(mine)[0], "pers": rnd.choice(["PERSIST", "LAPSE", "MARKET_ON_CLOSE"])}
                         elif mine and x < p["p_cancel"] + p["p_replace"] + p["p_update"] + p["p_replace_dup"]:
                             lab = rnd.choice(mine)
-                            a = {"op": "place", "o": lab[0], "sel": 0, "side": "BACK", "price": 2.0, "size": 2.0}
+                            a = {"op": "place", "o": lab[0], "dup": True, "sel": 0, "side": "BACK", "price": 2.0, "size": 2.0}
                         else:
                             if n >= p["max_orders"]:
                                 continue
